@@ -27,7 +27,7 @@ pub struct VxPairs { pub n: i32 }
 pub struct VxPestErr { pub n: i32 }
 #[verifier::external_body]
 pub fn calculate(line: &str, Tracked(pc): Tracked<&mut ParseCount>) -> (r: Result<VxPairs, VxPestErr>)
-    requires deepest_at(line@, '(', ')', line@.len() as int) <= MAX_NESTING as int,   //@L C05+C19.calc.the_parser_is_given_only_lines_within_the_nesting_limit
+    requires deepest_at(line@, '(', ')', line@.len() as int) <= MAX_NESTING as int && count_of(line@, '^', line@.len() as int) <= MAX_NESTING as int,   //@L C05+C19.calc.the_parser_is_given_only_lines_within_the_nesting_limit
     ensures final(pc).parsed == old(pc).parsed + 1
 { unimplemented!() }
 pub ghost struct ParseCount { pub parsed: int }
@@ -64,6 +64,14 @@ pub proof fn lemma_depth_bounds(t: Seq<char>, open: char, close: char, n: int)
 {
     if n > 0 { lemma_depth_bounds(t, open, close, n - 1); }
 }
+// how often a character occurs (str::matches(char).count(), through a shim)
+pub open spec fn count_of(t: Seq<char>, c: char, n: int) -> int
+    decreases n
+{
+    if n <= 0 { 0 } else { count_of(t, c, n - 1) + (if t[n - 1] == c { 1int } else { 0int }) }
+}
+#[verifier::external_body]
+pub fn vx_count_char(t: &str, c: char) -> (r: usize) ensures r as int == count_of(t@, c, t@.len() as int) { t.matches(c).count() }
 //@FN nesting_depth
 
 //@FN run_calculator
@@ -133,6 +141,7 @@ run_calculator = Fn('src/core.rs', 'run_calculator', ret='r',
         Rw('calculator::calculate(', 'calculate(', rule='R0', required=False), Rw(r'format!\("\{\}", (calculator::eval_float\(expr\))\)', r'vx_f64_to_string(\1)', regex=True, rule='R4', why='Display for f64 (opaque)'),
         Rw(r'format!\("\{\}", (calculator::eval_int\(expr\))\)', r'vx_i64_to_string(\1)', regex=True, rule='R4', why='Display for i64 (opaque)'),
         Rw('tools::nesting_depth(', 'nesting_depth(', rule='R0'), Rw('tools::MAX_NESTING', 'MAX_NESTING', rule='R0'),
+        Rw("line.matches('^').count()", "vx_count_char(line, '^')", rule='R12', why='str::matches(char).count() through a shim: the number of occurrences'),
         Rw('calc.next().unwrap().into_inner()', 'vx_inner_expr(calc)', rule='R10',
            why='pest iterator: first pair of a successful parse (trusted)'),
         Rw('Ok(mut calc)', 'Ok(calc)', rule='R10', required=False),
@@ -144,7 +153,7 @@ run_calculator = Fn('src/core.rs', 'run_calculator', ret='r',
               'match r { Ok(_) => final(md).used_float == line@.contains(\'.\') && final(md).used_int == !line@.contains(\'.\'), '
               'Err(_) => !final(md).used_float && !final(md).used_int }'),
              ('C05+C19.calc.a_line_nested_deeper_than_the_limit_is_rejected_before_it_is_parsed',
-              'deepest_at(line@, \'(\', \')\', line@.len() as int) > MAX_NESTING as int ==> r.is_err() && final(pc).parsed == old(pc).parsed')],
+              '(deepest_at(line@, \'(\', \')\', line@.len() as int) > MAX_NESTING as int || count_of(line@, \'^\', line@.len() as int) > MAX_NESTING as int) ==> r.is_err() && final(pc).parsed == old(pc).parsed')],
     props=('C19',),
 )
 
